@@ -251,7 +251,16 @@ func setupFile(v6 bool, args ...string) (handler.Handler6, handler.Handler4, err
 		// very simple watcher on the lease file to trigger a refresh on any event
 		// on the file
 		go func() {
-			for range watcher.Events {
+			for ev := range watcher.Events {
+				if ev.Has(fsnotify.Remove) || ev.Has(fsnotify.Rename) {
+					// The file was replaced, not rewritten (written under another name and moved
+					// into place, as editors and configuration tools do): the watch went away
+					// with the old file. Watch the file that carries the name now
+					_ = watcher.Remove(filename)
+					if err := watcher.Add(filename); err != nil {
+						log.Warningf("failed to watch %s again: %s", filename, err)
+					}
+				}
 				err := loadFromFile(v6, filename)
 				if err != nil {
 					log.Warningf("failed to refresh from %s: %s", filename, err)
